@@ -378,12 +378,12 @@ def check_model(model, rec):
 
 # ----------------------------------------------------------------------------- strategies
 
-HOSTILE_TEXT = st.text(alphabet=st.sampled_from(list("abXY01 _-./") + list("\"'\\#:,=()[]\n\t") + list("é中€😀")), max_size=10)
+HOSTILE_TEXT = st.text(alphabet=st.sampled_from(list("abXY01 _-./") + list("\"'\\#:,=()[]\n\t") + list("é中€😀") + ["\x0b", "\x0c", "\x1c", "\x1d", "\x1e", "\x85", "\u2028", "\u2029", "\x7f"]), max_size=10)
 PLAIN_TEXT = st.text(alphabet="abcXYZ019_", min_size=1, max_size=8)
 
 
 def strs():
-    return st.one_of(PLAIN_TEXT, HOSTILE_TEXT, st.sampled_from(["", " x", "x ", "C:\\path\\to\\file.csv", 'say "hi"', "it's", "a#b", "\\", "\\\\", "\"", "tab\there", "Ünï"])).map(
+    return st.one_of(PLAIN_TEXT, HOSTILE_TEXT, st.sampled_from(["", " x", "x ", "C:\\path\\to\\file.csv", 'say "hi"', "it's", "a#b", "\\", "\\\\", "\"", "tab\there", "Ünï", "line\u2028sep", "form\x0cfeed", "nel\x85", "\x1cfs"])).map(
         lambda s: {"t": "str", "v": s})
 
 
